@@ -10,6 +10,7 @@ less), `merge_sort` (no panic: every index in range; the length is preserved; an
 it is less than the current element of the left half -- direction and stability of the merge; the result is a permutation), `sort` = `merge_sort`.
 Proved as well: the result is a PERMUTATION of the list (multisets).  Not proved: that it is ORDERED (needs `ord` as a function and
 its transitivity, which hold only for mutually comparable elements)."""
+HAS_LOOP_CONTRACTS = True
 from vgen.gen import A
 from . import common as C
 from . import value_cmp as VC
